@@ -1047,7 +1047,7 @@ class Schematic:
         source_wires = self.getWiresFromSource(source)
         sink_wires = self.getWiresFromSink(sink)
         intersection = Intersection(source_wires, sink_wires)
-              
+        pending = []
         
         for wire in intersection:
             if (wire is None):
@@ -1060,11 +1060,11 @@ class Schematic:
                 self.dumpNets()
                 raise Exception(f'Wire:{wire.getFullPath()} {source.name} --> {sink.name} not in remove nets')
             
-            if (len(removeNets) > 1):
-                self.dumpNets()
-                raise Exception('Muliple nets between source:{} {} and sink:{} {}'.format( type(source).__name__, source.obj.getFullPath(), type(sink).__name__, sink.obj.getFullPath()))
+            # the same wire can reach several ports of the sink: one path for each of its nets
+            pending += removeNets
 
-            netToRemove = removeNets[0]
+        for netToRemove in pending:
+            wire = netToRemove.wire
             self.nets.remove(netToRemove)
         
             lastSymbol = source
@@ -1148,6 +1148,7 @@ class Schematic:
         
         # intersection wires are wires that connect source and sink
         # but take care, because the same wire can have multiple sink ports
+        pending = []
         
         for wire in intersection:
             # remove the original net
@@ -1159,13 +1160,11 @@ class Schematic:
                     wire.getFullPath(), type(source).__name__, source.obj.getFullPath(), 
                     type(sink).__name__, sink.obj.getFullPath()))
     
-            if (len(removeNets) > 1):
-                self.dumpNets()
-                raise Exception('Multiple nets between source:{} {} and sink:{} {}'.format(
-                    type(source).__name__, source.obj.getFullPath(), 
-                    type(sink).__name__, sink.obj.getFullPath()))
-    
-            netToRemove = removeNets[0]
+            # the same wire can reach several ports of the sink: one feedback path for each of its nets
+            pending += removeNets
+
+        for netToRemove in pending:
+            wire = netToRemove.wire
             self.nets.remove(netToRemove)
         
             lastSymbol = source
